@@ -156,3 +156,8 @@ package types
 //@   requires c != nil && c.ProofLeafLER != nil && c.ProofLERToRER != nil && c.ProofGERToL1Root != nil && c.L1Leaf != nil && c.L1Leaf.Inner != nil
 //@   modifies nothing
 //@   ensures[commits-to-the-three-proofs-and-the-leaf] result == keccak(catB(catB(catB(catB(emptyB(), bytesOf(hb(proofHash(c.ProofLeafLER.Root, c.ProofLeafLER.Proof)), 32)), bytesOf(hb(proofHash(c.ProofLERToRER.Root, c.ProofLERToRER.Proof)), 32)), bytesOf(hb(proofHash(c.ProofGERToL1Root.Root, c.ProofGERToL1Root.Proof)), 32)), bytesOf(hb(l1LeafHash(c.L1Leaf.Inner.GlobalExitRoot, c.L1Leaf.Inner.BlockHash, c.L1Leaf.Inner.Timestamp)), 32)))
+
+// which statuses count as undecided (C02's pending gate, C13's status poll read the store with this list; IsOpen is this
+// list's membership test): pinned
+//@ filepin C02,C13 types.go "NonSettledStatuses = []CertificateStatus{Pending, Candidate, Proven}"
+//@ filepin C02,C13 types.go "ClosedStatuses     = []CertificateStatus{Settled, InError}"
